@@ -1,5 +1,6 @@
 import Rivaas.Proto
 import Rivaas.Spec.Log
+import Rivaas.Spec.LogBuf
 /-
 Driver for C20.
 
@@ -97,7 +98,7 @@ def encBools (bs : List Bool) : String :=
 def stepR (id : String) (inp obs : List String) : String :=
   match runP (pRCase inp.length) inp, runP pRObs obs with
   | some rc, some o =>
-    let m := emitK20d rc.c
+    let m := emit rc.c
     let mocc := modelOcc rc.cores m
     let mi := match o with
       | some (ps, occ) => ps == m && occ == mocc
@@ -108,12 +109,66 @@ def stepR (id : String) (inp obs : List String) : String :=
     verdict id mi s "-" ("O " ++ encPairs m ++ " " ++ encBools mocc)
   | _, _ => s!"{id} bad-case"
 
+/-! buffering cases:
+  <id> B <custom> <progs: n (<n> op…)…> <sched: n step…> => T <n> ev… | X
+  op ::= L <seq> <lvl> <derived> <fail> | S | F | V <lvl> | H      step ::= s <g> | r <g>
+  ev ::= b <g> <i> | d <g> <i> | w <g> <seq> <intact> -/
+open Rivaas.LogBuf in
+def pBOp : P Op := do
+  let k ← tok
+  if k == "L" then do
+    let seq ← nat; let lvl ← nat; let d ← bool; let f ← bool
+    pure (.log { seq := seq, lvl := lvl, derived := d, fail := f })
+  else if k == "S" then pure .startBuffering
+  else if k == "F" then pure .flush
+  else if k == "V" then Op.setLevel <$> nat
+  else if k == "H" then pure .shutdown
+  else failure
+
+open Rivaas.LogBuf in
+def pBStep : P Step := do
+  let k ← tok
+  if k == "s" then Step.seg <$> nat else if k == "r" then Step.run <$> nat else failure
+
+open Rivaas.LogBuf in
+def pEv : P Ev := do
+  let k ← tok
+  if k == "b" then do let g ← nat; let i ← nat; pure (.begin g i)
+  else if k == "d" then do let g ← nat; let i ← nat; pure (.done g i)
+  else if k == "w" then do let g ← nat; let s ← nat; let i ← bool; pure (.write g s i)
+  else failure
+
+open Rivaas.LogBuf in
+def encEv : Ev → String
+  | .begin g i => s!" b {g} {i}"
+  | .done g i => s!" d {g} {i}"
+  | .write g s i => s!" w {g} {s} {if i then 1 else 0}"
+
+open Rivaas.LogBuf in
+def stepB (id : String) (inp obs : List String) : String :=
+  let pIn : P (Bool × List (List Op) × List Step) := do
+    let c ← bool
+    let progs ← list (list pBOp)
+    let sched ← list pBStep
+    pure (c, progs, sched)
+  let pOut : P (Option (List Ev)) := do
+    let k ← tok
+    if k == "T" then some <$> list pEv else if k == "X" then pure none else failure
+  match runP pIn inp, runP pOut obs with
+  | some (custom, progs, sched), some o =>
+    let m := LogBuf.run Flags.fixed custom progs sched
+    let mi := match o with | some tr => tr == m | none => false
+    let s := match o with | some tr => LogBuf.specOK custom progs tr | none => false
+    verdict id mi s "-" ("T " ++ toString m.length ++ String.join (m.map encEv))
+  | _, _ => s!"{id} bad-case"
+
 def step (line : String) : String :=
   match splitCase line with
   | none => "? bad-line"
   | some (id, inp, obs) =>
     match inp with
     | "R" :: rest => stepR id rest obs
+    | "B" :: rest => stepB id rest obs
     | _ => s!"{id} bad-case"
 
 end Rivaas.DriverC20
